@@ -3,7 +3,7 @@ CONSTANTS
   Node = {"n1", "n2"}
   Byz = {}
   T10 = 670
-  MaxHeight = 2
+  MaxHeight = 1
   MaxRound = 0
 INVARIANTS TypeOK NoHonestEquivocation VoteproofAgreement ChainAgreement SavedOnlyAgreed ChainLinked OneProposalPerPoint
 PROPERTIES LastMonotone BoxLastMonotone
